@@ -20,6 +20,8 @@ pub open spec fn kkey(w: HeapW, o: nat) -> Seq<u8> { w.slots[o].c->Key_0 }
 pub open spec fn kvoff(w: HeapW, o: nat) -> nat { w.slots[o].c->Key_1 }
 pub open spec fn knext(w: HeapW, o: nat) -> nat { w.slots[o].c->Key_2 }
 pub open spec fn vval(w: HeapW, o: nat) -> Seq<u8> { w.slots[o].c->Val_0 }
+/// opaque: the `%` must not reach proofs that only need "same key, same bucket" (non-linear terms made unrelated lemmas unstable)
+#[verifier::opaque]
 pub open spec fn bucket_of(key: Seq<u8>, n: int) -> int { (key_hash(key) as int) % n }
 
 /// `s` is the chain of bucket `b`: starts at the bucket head, follows the next links, ends with next == 0,
@@ -274,6 +276,6 @@ pub proof fn lemma_val_same(m: MapB, w1: MapW, w2: MapW, v: nat)
 }
 pub proof fn lemma_bucket_range(key: Seq<u8>, n: int)
     requires n > 0
-    ensures 0 <= bucket_of(key, n) < n
-{}
+    ensures 0 <= bucket_of(key, n) < n, bucket_of(key, n) == (key_hash(key) as int) % n
+{ reveal(bucket_of); }
 } // verus!
